@@ -16,7 +16,15 @@ def term_correspondence(c, ctx, r):
         n = r.range(1, 5)
         lines = ["N %d %s" % (n, " ".join(str(r.choice([0, 0, 0, 1])) for _ in range(n)))]
         now = [0] * n
-        for _ in range(r.range(5, 40)):
+        if h % 10 == 7 and n >= 2:
+            # directed: two LPs of the thread become true speculatively at tx < ty, the later one is rolled back below tx and becomes
+            # true again early; a GVT between its new time and tx must not let the thread vote (tx is still speculative)
+            lines = ["N %d %s" % (n, " ".join("0" if i < 2 else "1" for i in range(n)))]
+            tx = r.range(5, 30); ty = tx + r.range(1, 20); m = r.range(1, tx - 1); y2 = r.range(m, tx - 1)
+            pre = [("P 0 %d 0" % r.range(0, 1))] if r.chance(1, 2) else []
+            lines += pre + ["P 0 %d 1" % tx, "P 1 %d 1" % ty, "R 1 %d" % m, "P 1 %d 1" % y2, "G %d 0" % r.range(y2 + 1, tx)]
+            now = [tx, y2] + [0] * (n - 2)
+        for _ in range(r.range(5, 40) if not (h % 10 == 7 and n >= 2) else r.range(0, 6)):
             k = r.below(10)
             lp = r.below(n)
             if k < 5:
